@@ -8,6 +8,8 @@ CLAIMED = {
          'E-SEL (selector does not raise for recorded descriptors), asyncio task plumbing (_run_once) not covered, _cleanup_inactive loops unrolled (bounded: <=2 works)'),
  'C07': ('4.C07', 'teardown only when the client buffer is empty or the client is dead (T1), write interest while output is pending (T2), promptness (T3), deferred teardown flag (T4) on the real handlers',
          'peer keeps reading; handle_data used via adversarial contract; known finding F20 (threaded final flush + SSLWant*) carved out under C10'),
+ 'C08': ('4.C08', 'auth predicate == credential spec (accept iff header present, two tokens, basic, exact code) as normal/exceptional postconditions; rejection reaches nothing (ghost connect counter); Proxy-Authorization never in the forwarded request',
+         'A-STR (lower / whitespace split uninterpreted), adversarial plugin hooks, HttpParser.build used through its field-emission contract (instances for the hop-by-hop names), connect_upstream via contract'),
  'C10': ('4.C10', 'C05 bookkeeping + shutdown(): client socket closed exactly once and plugin close hook exactly once on all exits; received descriptor closed exactly once',
          'socket.close releases the descriptor (kernel tables not modelled); TLS unwrap branch not modelled; _flush termination not proved; F20 carved out'),
  'C13': ('4.C13', 'confinement postcondition on the path handed to serve_static_file (ghost log of opened paths) against an independently written inside() predicate',
